@@ -15,6 +15,27 @@
   `validate_bonding_for_current_epoch`, both smart queries to the fee distributor) are an input of
   the environment: `Env.guardsOk`. `false` makes the call fail with `err` at exactly the place where
   the Rust returns `UnclaimedRewards` / `NewEpochNotCreatedYet`.
+
+  COINS THE CONTRACT RECEIVES WITHOUT A BOND.  `execute` hands `info` to `bond` and `unbond` only;
+  `unbond` never looks at `info.funds`, `withdraw` receives `info.sender` alone, `update_config` reads
+  `info.sender` alone, and a plain bank transfer runs no contract code at all.  The bank moves such coins
+  to the contract before the handler runs (all or nothing with the handler), and no handler ever sends
+  anything but `withdraw`'s `BankMsg::Send` of exactly the removed records' sum.  So they stay: the model
+  books them in the ghost ledger `St.strays` (who, which denom, how much; newest first), which no handler
+  reads, to which only `receive` adds and from which nothing is ever removed.  `bond` needs exactly one
+  coin that matches the asset, so nothing attached to an accepted `bond` is stray.
+
+  MIGRATION (`Op.migrate`): `contract.rs::migrate` — `check_contract_name`; stored cw2 version `>=` crate
+  version → `MigrateInvalidVersion`; stored `< 0.9.0` → `migrations::migrate_to_v090`, which loads the
+  `config` item as `ConfigV080` (a `cw_serde` struct, i.e. `deny_unknown_fields`, WITHOUT
+  `fee_distributor_addr`) and saves it back as `Config` with `fee_distributor_addr = ""`;
+  `set_contract_version`.  On the layout every release since 0.9.0 writes, `ConfigV080` does not parse
+  (unknown field `fee_distributor_addr`): the migration from a version below 0.9.0 is REFUSED and nothing
+  changes.  On the 0.8.x layout (`oldLayout`) it succeeds, every field is carried over, and the fee
+  distributor address is the empty string until the owner sets it again (`St.fdSet = false`: both guards'
+  queries and the `Bonded` query of an address with a bond fail).  The chain lets only the wasm admin
+  migrate (`Cfg.admin`).  No bond, unbonding record, global index, period, growth rate or balance is
+  touched by any branch.
 -/
 import WW.Cw.Arith
 import WW.Gen.Constants
@@ -34,6 +55,8 @@ structure Cfg where
   genesis : Nat
   /-- fee distributor `epoch_config.duration` -/
   epochDur : Nat
+  /-- the wasm admin of the contract instance (the only address the chain lets migrate it) -/
+  admin : Nat := owner
 
 /-- an entry of `BOND : Map<(&Addr, &Denom), Bond>` -/
 structure BondRec where
@@ -51,6 +74,26 @@ structure UnbRec where
   ts : Nat
   amount : Nat
 deriving Repr, DecidableEq
+
+/-- a coin the contract received without a bond: funds attached to `unbond` / `withdraw` /
+    `update_config`, or a plain bank transfer -/
+structure StrayRec where
+  addr : Nat
+  denom : Nat
+  amount : Nat
+deriving Repr, DecidableEq
+
+/-- a cw2 / crate version `major.minor.patch` -/
+structure Ver where
+  major : Nat
+  minor : Nat
+  patch : Nat
+deriving Repr, DecidableEq
+
+/-- `semver::Version` order on release versions -/
+def Ver.lt (a b : Ver) : Bool :=
+  a.major < b.major ||
+    (a.major == b.major && (a.minor < b.minor || (a.minor == b.minor && a.patch < b.patch)))
 
 /-- `GLOBAL : Item<GlobalIndex>` (`may_load().unwrap_or_default()`: absent = all zero) -/
 structure Global where
@@ -74,6 +117,11 @@ structure St where
   bal : Nat → Nat
   /-- bank balance of each account per denom -/
   ubal : Nat → Nat → Nat
+  /-- ghost ledger of the coins received without a bond (newest first); read by no handler -/
+  strays : List StrayRec
+  /-- `Config.fee_distributor_addr` names a contract (`false`: the empty string `migrate_to_v090`
+      leaves behind — every smart query to it fails) -/
+  fdSet : Bool
 
 /-- block time, sender and the fee distributor's answer to the two guards -/
 structure Env where
@@ -90,12 +138,20 @@ deriving Repr, DecidableEq
 inductive Op where
   /-- `ExecuteMsg::Bond { asset }` with `info.funds` -/
   | bond (asset : AssetRef) (amount : Nat) (funds : List (Nat × Nat))
-  /-- `ExecuteMsg::Unbond { asset }` (no funds attached) -/
-  | unbond (asset : AssetRef) (amount : Nat)
-  /-- `ExecuteMsg::Withdraw { denom }` (no funds attached) -/
-  | withdraw (denom : Nat)
-  /-- `ExecuteMsg::UpdateConfig { unbonding_period, growth_rate, owner: None, fee_distributor_addr: None }` -/
-  | config (period : Option Nat) (rate : Option Nat)
+  /-- `ExecuteMsg::Unbond { asset }` with `info.funds = coins` (the handler never reads them) -/
+  | unbond (asset : AssetRef) (amount : Nat) (coins : List (Nat × Nat))
+  /-- `ExecuteMsg::Withdraw { denom }` with `info.funds = coins` (the handler is not even given `info`) -/
+  | withdraw (denom : Nat) (coins : List (Nat × Nat))
+  /-- `ExecuteMsg::UpdateConfig { unbonding_period, growth_rate, owner: None, fee_distributor_addr: None }`
+      with `info.funds = coins` -/
+  | config (period : Option Nat) (rate : Option Nat) (coins : List (Nat × Nat))
+  /-- `ExecuteMsg::UpdateConfig { fee_distributor_addr: Some(a contract), .. : None }` -/
+  | setFd
+  /-- a plain `BankMsg::Send` of `coins` from the sender to the contract -/
+  | send (coins : List (Nat × Nat))
+  /-- the `migrate` entry point sent by `Env.sender` on an instance whose stored cw2 version is `stored`,
+      with the code of crate version `crate`; `oldLayout`: the `config` item is in the 0.8.x layout -/
+  | migrate (stored crate : Ver) (oldLayout : Bool)
 deriving Repr, DecidableEq
 
 /-! ### storage maps -/
@@ -207,7 +263,8 @@ def bond (cfg : Cfg) (s : St) (e : Env) (asset : AssetRef) (x : Nat) (funds : Li
     | .native d =>
       -- validate_funds
       if fa ≠ x ∨ fd ≠ d ∨ ¬ cfg.whitelist.contains d then .err
-      -- validate_claimed / validate_bonding_for_current_epoch
+      -- validate_claimed / validate_bonding_for_current_epoch (smart queries to `fee_distributor_addr`)
+      else if ¬ s.fdSet then .err
       else if ¬ e.guardsOk then .err
       else
       match bondLocal s e d x with
@@ -258,7 +315,8 @@ def unbond (s : St) (e : Env) (asset : AssetRef) (x : Nat) : Res St :=
   match asset with
   | .token => .err
   | .native d =>
-    if ¬ e.guardsOk then .err
+    if ¬ s.fdSet then .err
+    else if ¬ e.guardsOk then .err
     else
     match getBond e.sender d s.bonds with
     | none => .err
@@ -335,11 +393,72 @@ def config (cfg : Cfg) (s : St) (e : Env) (period rate : Option Nat) : Res St :=
     | some r => if E18 < r then .err else .ok { s with period := p, rate := r }
     | none => .ok { s with period := p }
 
+/-- `UpdateConfig { fee_distributor_addr: Some(_) }`: owner only -/
+def setFd (cfg : Cfg) (s : St) (e : Env) : Res St :=
+  if e.sender ≠ cfg.owner then .err else .ok { s with fdSet := true }
+
+/-! ### coins received without a bond -/
+
+/-- the bank moves one (non-zero) coin from `a` to the contract; it is entered into the stray ledger -/
+def receive1 (s : St) (a d x : Nat) : Res St :=
+  -- insufficient funds
+  if s.ubal a d < x then .err
+  else
+  match padd U128MAX (s.bal d) x with
+  | .err => .err
+  | .panic => .panic
+  | .ok nbal =>
+    .ok { s with
+      bal := fun d' => if d' = d then nbal else s.bal d'
+      ubal := fun a' d' => if a' = a ∧ d' = d then s.ubal a d - x else s.ubal a' d'
+      strays := ⟨a, d, x⟩ :: s.strays }
+
+def receiveAll (s : St) (a : Nat) : List (Nat × Nat) → Res St
+  | [] => .ok s
+  | (d, x) :: t =>
+    match receive1 s a d x with
+    | .ok s1 => receiveAll s1 a t
+    | .err => .err
+    | .panic => .panic
+
+/-- the bank's part of a message that carries `coins` to the contract, before any handler runs
+    (the mock bank's `normalize_amount`: zero coins are dropped; nothing left of a non-empty list →
+    "Cannot transfer empty coins amount"; an empty list moves nothing) -/
+def receive (s : St) (a : Nat) (coins : List (Nat × Nat)) : Res St :=
+  if coins.isEmpty then .ok s
+  else
+    let nz := coins.filter fun c => c.2 != 0
+    if nz.isEmpty then .err else receiveAll s a nz
+
+/-- the 0.9.0 threshold of `contract.rs::migrate` -/
+def V090 : Ver := ⟨0, 9, 0⟩
+
+/-- the `migrate` entry point -/
+def migrate (cfg : Cfg) (s : St) (e : Env) (stored crate : Ver) (oldLayout : Bool) : Res St :=
+  -- chain: "Only admin can migrate contract"
+  if e.sender ≠ cfg.admin then .err
+  -- `storage_version >= version` → MigrateInvalidVersion
+  else if ¬ stored.lt crate then .err
+  else if stored.lt V090 then
+    -- migrate_to_v090: `ConfigV080` parses the 0.8.x layout only; `fee_distributor_addr := ""`
+    if oldLayout then .ok { s with fdSet := false } else .err
+  else .ok s
+
+/-- run `h` on the state in which the attached coins have arrived; all or nothing -/
+def withCoins (s : St) (a : Nat) (coins : List (Nat × Nat)) (h : St → Res St) : Res St :=
+  match receive s a coins with
+  | .ok s1 => h s1
+  | .err => .err
+  | .panic => .panic
+
 def step (cfg : Cfg) (s : St) (e : Env) : Op → Res St
   | .bond asset x funds => bond cfg s e asset x funds
-  | .unbond asset x => unbond s e asset x
-  | .withdraw d => withdraw s e d
-  | .config p r => config cfg s e p r
+  | .unbond asset x coins => withCoins s e.sender coins fun s1 => unbond s1 e asset x
+  | .withdraw d coins => withCoins s e.sender coins fun s1 => withdraw s1 e d
+  | .config p r coins => withCoins s e.sender coins fun s1 => config cfg s1 e p r
+  | .setFd => setFd cfg s e
+  | .send coins => if coins.isEmpty then .err else receive s e.sender coins
+  | .migrate stored crate l => migrate cfg s e stored crate l
 
 /-- a failed operation leaves the state as it was (all-or-nothing transaction) -/
 def stepOrStay (cfg : Cfg) (s : St) (eo : Env × Op) : St :=
@@ -351,11 +470,11 @@ def stepOrStay (cfg : Cfg) (s : St) (eo : Env × Op) : St :=
 def reach (cfg : Cfg) (s : St) (ops : List (Env × Op)) : St :=
   ops.foldl (stepOrStay cfg) s
 
-/-- state right after instantiation -/
+/-- state right after instantiation and the owner's `UpdateConfig { fee_distributor_addr }` -/
 def init (period rate : Nat) (ubal : Nat → Nat → Nat) : St :=
   { period := period, rate := rate, bonds := [], unbonds := [],
     global := { bonded := 0, assets := [], ts := 0, weight := 0 }, gset := false,
-    bal := fun _ => 0, ubal := ubal }
+    bal := fun _ => 0, ubal := ubal, strays := [], fdSet := true }
 
 /-! ### queries -/
 
@@ -377,6 +496,9 @@ def calcEpoch (cfg : Cfg) (ts : Nat) : Res Nat :=
 def qBonded (cfg : Cfg) (s : St) (a : Nat) : Res (Nat × List (Nat × Nat) × Nat) :=
   let bs := (sortBy (·.denom) (s.bonds.filter fun r => r.addr = a)).take Gen.LAIR_BONDING_ASSETS_LIMIT
   if bs.isEmpty then .ok (0, [], 0)
+  -- the smart query for the fee distributor's `Config` (after the sums, which cannot fail on a
+  -- reachable state; both failures are `Err`)
+  else if ¬ s.fdSet then .err
   else do
     let first := bs.foldl (fun f b => if b.ts / NS < f / NS then b.ts else f) (16725229261 * NS)
     let total ← bs.foldlM (fun acc b => cadd U128MAX acc b.amount) 0
@@ -386,6 +508,15 @@ def qBonded (cfg : Cfg) (s : St) (a : Nat) : Res (Nat × List (Nat × Nat) × Na
 /-- all records of `(a, d)` in key order (`QueryMsg::Unbonding`, all pages) -/
 def qUnbonding (s : St) (a d : Nat) : List UnbRec :=
   sortBy (·.ts) (s.unbonds.filter (mine a d))
+
+/-- one page of `QueryMsg::Unbonding { address, denom, start_after, limit }`:
+    `limit.unwrap_or(DEFAULT_PAGE_LIMIT).min(MAX_PAGE_LIMIT)` records with key `> start_after` -/
+def qUnbondingPage (s : St) (a d : Nat) (startAfter limit : Option Nat) : List UnbRec :=
+  let all : List UnbRec := qUnbonding s a d
+  let from_ : List UnbRec := match startAfter with
+    | some t => all.filter fun (r : UnbRec) => t < r.ts
+    | none => all
+  from_.take (min (limit.getD Gen.LAIR_DEFAULT_PAGE_LIMIT) Gen.LAIR_MAX_PAGE_LIMIT)
 
 /-- `QueryMsg::Withdrawable { address, denom }` at block time `now` -/
 def qWithdrawable (s : St) (now a d : Nat) : Res Nat :=
@@ -439,6 +570,21 @@ def sumUnb (d : Nat) : List UnbRec → Nat
 def sumUnbOf (a d : Nat) : List UnbRec → Nat
   | [] => 0
   | r :: t => (if r.addr = a ∧ r.denom = d then r.amount else 0) + sumUnbOf a d t
+
+/-- Σ of the stray coins of denom `d` (whoever sent them) -/
+def sumStray (d : Nat) : List StrayRec → Nat
+  | [] => 0
+  | r :: t => (if r.denom = d then r.amount else 0) + sumStray d t
+
+/-- Σ of the stray coins of denom `d` that `a` sent -/
+def sumStrayOf (a d : Nat) : List StrayRec → Nat
+  | [] => 0
+  | r :: t => (if r.addr = a ∧ r.denom = d then r.amount else 0) + sumStrayOf a d t
+
+/-- Σ of the coins of denom `d` in a funds vector -/
+def coinsAmt (d : Nat) : List (Nat × Nat) → Nat
+  | [] => 0
+  | (e, x) :: t => (if e = d then x else 0) + coinsAmt d t
 
 /-- the amount recorded at the `UNBOND` key `(a, d, ts)` -/
 def recAmt (a d ts : Nat) : List UnbRec → Nat
